@@ -278,3 +278,54 @@ func ZZ_C09_ProtoPortText() {
 	verifAssert((ob == 7) == (protoOK && inRange), "the rule applies to exactly the ports N..M (inclusive) of the named protocol")
 	verifCover("matched")
 }
+
+// Rule LISTS from text through Compile: two (thorough: three) rules, each
+// with an address form (all / suffix / exact name) and a protocol-port form
+// (none, tcp, udp/53, */53, */100-200); the answer for any host, protocol and
+// port is the outbound of the first rule that matches by the documented
+// semantics - no rule is dropped or reordered by compilation.
+//
+//verif:harness kind=api unwind=64 bound=rules=2(quick)/3(thorough),3-address-forms,5-proto-port-forms,3-hosts,port:any
+func ZZ_C09_RuleListFromText() {
+	n := 2
+	if verifThorough() {
+		n = 3
+	}
+	addrs := []string{"all", "suffix:a.example", "b.example"}
+	pps := []string{"", "tcp", "udp/53", "*/53", "*/100-200"}
+	obs := map[string]int{"o1": 1, "o2": 2, "o3": 3}
+	var rules []TextRule
+	ak, pk := make([]int, n), make([]int, n)
+	for i := 0; i < n; i++ {
+		ak[i], pk[i] = verifChoice("address", len(addrs)), verifChoice("protoPort", len(pps))
+		rules = append(rules, TextRule{Outbound: []string{"o1", "o2", "o3"}[i], Address: addrs[ak[i]], ProtoPort: pps[pk[i]]})
+	}
+	rs, err := Compile(rules, obs, 4, nil)
+	verifAssert(err == nil, "the rule list compiles")
+	host := []string{"x.a.example", "b.example", "c.other"}[verifChoice("host", 3)]
+	proto := Protocol(verifInt("proto", 1, 2))
+	port := verifUint16("port")
+	want := 0
+	for i := 0; i < n && want == 0; i++ {
+		addrOK := ak[i] == 0 || (ak[i] == 1 && host == "x.a.example") || (ak[i] == 2 && host == "b.example")
+		ppOK := false
+		switch pk[i] {
+		case 0:
+			ppOK = true
+		case 1:
+			ppOK = proto == ProtocolTCP
+		case 2:
+			ppOK = proto == ProtocolUDP && port == 53
+		case 3:
+			ppOK = port == 53
+		case 4:
+			ppOK = port >= 100 && port <= 200
+		}
+		if addrOK && ppOK {
+			want = i + 1
+		}
+	}
+	ob, _ := rs.Match(HostInfo{Name: host}, proto, port)
+	verifAssert(ob == want, "the first matching rule of the list answers (default when none)")
+	verifCover("answered")
+}
